@@ -105,6 +105,7 @@ func checkC09(p *Prog, res *Result, tier string) {
 	res.rule("C09-R2", "the compaction revision is clamped to the committed revision and to MinRevision()-1 of the repair queue", 1)
 	res.rule("C09-R3", "repair write shape and queue discipline", 5)
 	res.rule("C09-R4", "engine-commit error classification of the TiKV adapter", 3)
+	res.rule("C09-R7", "the repair queue is a FIFO that loses nothing: push links the new entry behind the old tail and makes it the tail on every path", 2)
 	res.rule("C09-R6", "on the write path the error of a committing call is returned as is (or wrapped) unless it was found nil or classified (errors.Is / == sentinel / conflict assertion)", 6)
 	res.rule("C09-R5", "a nil error is returned to the client only after success or a definite failure class", 6)
 
@@ -227,6 +228,9 @@ func checkC09(p *Prog, res *Result, tier string) {
 
 	// ---- R4 ----
 	checkCommitClassification(p, r, res)
+
+	// ---- R7: queue discipline ----
+	checkQueueDiscipline(p, res)
 
 	// ---- R6: the error of a committing call is never replaced on the write path ----
 	{
@@ -362,11 +366,73 @@ func checkCompactionClamp(p *Prog, r *Roles, res *Result, rule string) {
 			return false
 		})
 		raw := p.resolveDeep(handed) == ssa.Value(revParam)
+		// the client's revision may flow on only where it is known not to exceed the committed revision
+		isCommitted := func(v ssa.Value) bool {
+			c, ok := resolve(v).(*ssa.Call)
+			return ok && (p.isCallToMethod(c, r.TSOGetRevision) || p.isCallToMethod(c, r.BGetCur))
+		}
+		boundedAt := func(facts []condFact) bool {
+			for _, cf := range facts {
+				if cf.X == nil {
+					continue
+				}
+				if resolve(cf.X) == ssa.Value(revParam) && isCommitted(cf.Y) && ((cf.Op == token.GTR && !cf.Want) || (cf.Op == token.LEQ && cf.Want) || (cf.Op == token.LSS && cf.Want)) {
+					return true
+				}
+				if resolve(cf.Y) == ssa.Value(revParam) && isCommitted(cf.X) && ((cf.Op == token.LSS && !cf.Want) || (cf.Op == token.GEQ && cf.Want) || (cf.Op == token.GTR && cf.Want)) {
+					return true
+				}
+			}
+			return false
+		}
+		var unclamped func(v ssa.Value, facts []condFact, d int, seen map[ssa.Value]bool) bool
+		unclamped = func(v ssa.Value, facts []condFact, d int, seen map[ssa.Value]bool) bool {
+			v = resolve(v)
+			if d > 10 || seen[v] {
+				return false
+			}
+			seen[v] = true
+			switch x := v.(type) {
+			case *ssa.Parameter:
+				return x == revParam && !boundedAt(facts)
+			case *ssa.Phi:
+				for i, e := range x.Edges {
+					pred := x.Block().Preds[i]
+					fs := append(append([]condFact{}, facts...), localFacts(pred)...)
+					if iff := ifOf(pred); iff != nil {
+						for s := 0; s < 2; s++ {
+							if pred.Succs[s] == x.Block() {
+								fs = append(fs, expandFact(edgeFact(edge{pred, s}), 0)...)
+							}
+						}
+					}
+					if unclamped(e, fs, d+1, seen) {
+						return true
+					}
+				}
+			case *ssa.Call:
+				if sc := x.Common().StaticCallee(); sc != nil && (isMinFn(sc) || isMaxFn(sc)) {
+					for _, a := range x.Common().Args {
+						if unclamped(a, facts, d+1, seen) {
+							return true
+						}
+					}
+				}
+			case *ssa.BinOp:
+				return unclamped(x.X, facts, d+1, seen) || unclamped(x.Y, facts, d+1, seen)
+			case *ssa.Convert:
+				return unclamped(x.X, facts, d+1, seen)
+			}
+			return false
+		}
+		free := unclamped(handed, localFacts(site.Block()), 0, map[ssa.Value]bool{})
 		switch {
 		case raw:
 			res.bad(rule, construct, p.pos(site.Pos()), "the raw requested revision is handed to the scanner: compaction can run past the committed revision and past an unresolved unknown-outcome write")
 		case !fromCommitted:
 			res.bad(rule, construct, p.pos(site.Pos()), "the compaction revision is not clamped against the committed revision")
+		case free:
+			res.bad(rule, construct, p.pos(site.Pos()), "the client's revision reaches the scanner on a path where it is not known to be <= the committed revision: a compaction above the committed revision removes deletion records that an in-flight create still relies on")
 		case !fromMin || !usesMin:
 			res.bad(rule, construct, p.pos(site.Pos()), "the compaction revision is not capped by min(MinRevision()-1, .) of the repair queue: the versions an unknown-outcome repair needs can be compacted away")
 		default:
@@ -760,6 +826,141 @@ func checkClientMapping(p *Prog, r *Roles, res *Result, f *ssa.Function) {
 			res.ok("C09-R5", construct, p.pos(ret.Pos()), why)
 		} else {
 			res.bad("C09-R5", construct, p.pos(ret.Pos()), "a response with a nil error is returned on a path where the write's error was neither nil nor a definite failure class: an unknown or storage error would be reported to the client as an answer")
+		}
+	}
+}
+
+
+// checkQueueDiscipline: in the repair queue's push, every path to a return makes the new node the tail, and on the
+// paths where an old tail exists links it to the new node first.
+func checkQueueDiscipline(p *Prog, res *Result) {
+	rp := p.ssaPkg("pkg/backend/retry")
+	var pop *ssa.Function
+	for _, f := range p.AllFuncs {
+		if f.Pkg == rp && isQueuePop(f) {
+			pop = f
+		}
+	}
+	if pop == nil {
+		res.und("C09-R7", "repair queue", "-", "pop not found")
+		return
+	}
+	qT := pop.Params[0].Type()
+	// head: the field pop assigns from <node>.next; next: the node field it reads
+	var headF, nextF *types.Var
+	for _, b := range pop.Blocks {
+		for _, ins := range b.Instrs {
+			st, ok := ins.(*ssa.Store)
+			if !ok {
+				continue
+			}
+			fa, ok := st.Addr.(*ssa.FieldAddr)
+			if !ok || resolve(fa.X) != ssa.Value(pop.Params[0]) {
+				continue
+			}
+			if ld, ok := resolve(st.Val).(*ssa.UnOp); ok {
+				if fa2, ok := ld.X.(*ssa.FieldAddr); ok && types.Identical(fieldOf(fa2).Type(), fieldOf(fa).Type()) && fieldOf(fa2) != fieldOf(fa) {
+					headF, nextF = fieldOf(fa), fieldOf(fa2)
+				}
+			}
+		}
+	}
+	if headF == nil {
+		res.und("C09-R7", "repair queue", "-", "head / next fields not identified")
+		return
+	}
+	// tail: the other field of the queue with the node pointer type
+	var tailF *types.Var
+	qs := qT.(*types.Pointer).Elem().Underlying().(*types.Struct)
+	for i := 0; i < qs.NumFields(); i++ {
+		if fv := qs.Field(i); fv != headF && types.Identical(fv.Type(), headF.Type()) {
+			tailF = fv
+		}
+	}
+	if tailF == nil {
+		res.und("C09-R7", "repair queue", "-", "tail field not identified")
+		return
+	}
+	// push: the method of the queue that stores into the tail field
+	for _, f := range p.AllFuncs {
+		if f.Pkg != rp || f.Signature.Recv() == nil || !types.Identical(f.Signature.Recv().Type(), qT) || f == pop {
+			continue
+		}
+		storesHeadOrTail := false
+		for _, st := range append(append([]*ssa.Store{}, p.fields().stores[tailF]...), p.fields().stores[headF]...) {
+			if st.Parent() == f {
+				storesHeadOrTail = true
+			}
+		}
+		if !storesHeadOrTail {
+			continue
+		}
+		isTailStore := func(i ssa.Instruction) bool {
+			st, ok := i.(*ssa.Store)
+			if !ok {
+				return false
+			}
+			fa, ok := st.Addr.(*ssa.FieldAddr)
+			return ok && fieldOf(fa) == tailF && resolve(fa.X) == ssa.Value(f.Params[0])
+		}
+		construct := funcName(f) + ": the pushed entry becomes the tail on every path"
+		ins, path := searchFrom(f.Blocks[0], 0, searchOpts{
+			stop: isTailStore,
+			bad:  func(i ssa.Instruction) bool { _, ok := i.(*ssa.Return); return ok },
+		})
+		if ins != nil {
+			res.bad("C09-R7", construct, p.pos(ins.Pos()), "a path through push returns without making the new entry the tail: the next push links behind a stale tail and the entries in between are unreachable (never repaired, and MinRevision() no longer covers them): "+blockPath(p, path))
+		} else {
+			res.ok("C09-R7", construct, p.pos(f.Pos()), "every return is preceded by tail = node")
+		}
+		// old tail linked: on the edge tail != nil, a store to <tail>.next is reached before return
+		construct = funcName(f) + ": an existing tail is linked to the pushed entry"
+		found, bad := false, false
+		for _, b := range f.Blocks {
+			if ifOf(b) == nil {
+				continue
+			}
+			for sidx := 0; sidx < 2; sidx++ {
+				cf := edgeFact(edge{b, sidx})
+				if cf.X == nil || !isNilConst(cf.Y) {
+					continue
+				}
+				ld, ok := resolve(cf.X).(*ssa.UnOp)
+				if !ok {
+					continue
+				}
+				fa, ok := ld.X.(*ssa.FieldAddr)
+				if !ok || fieldOf(fa) != tailF {
+					continue
+				}
+				nonNil := (cf.Op == token.NEQ && cf.Want) || (cf.Op == token.EQL && !cf.Want)
+				if !nonNil {
+					continue
+				}
+				found = true
+				ins, _ := searchFrom(b.Succs[sidx], 0, searchOpts{
+					stop: func(i ssa.Instruction) bool {
+						st, ok := i.(*ssa.Store)
+						if !ok {
+							return false
+						}
+						fa, ok := st.Addr.(*ssa.FieldAddr)
+						return ok && fieldOf(fa) == nextF
+					},
+					bad: func(i ssa.Instruction) bool { _, ok := i.(*ssa.Return); return ok },
+				})
+				if ins != nil {
+					bad = true
+				}
+			}
+		}
+		switch {
+		case !found:
+			res.ok("C09-R7", construct, p.pos(f.Pos()), "push does not branch on the tail being present (nothing to check on that branch)")
+		case bad:
+			res.bad("C09-R7", construct, p.pos(f.Pos()), "with a non-empty queue push can return without linking the old tail to the new entry")
+		default:
+			res.ok("C09-R7", construct, p.pos(f.Pos()), "on the non-empty branch <tail>.next = node is reached before return")
 		}
 	}
 }
